@@ -157,6 +157,11 @@ MUTS = [
     ('SL2', 'change', 'C14', D, "                if isinstance(member, DelayedReplicationDescriptor):\n                    ret.append(member.factor.id)\n", ""),
     ('SL3', 'change', 'C14', D, "            ret.append(member.id)\n            if isinstance(member, ReplicationDescriptor):", "            ret.append(member.id)\n            if isinstance(member, SequenceDescriptor):"),
     ('SL4', 'preserve', 'C14', D, "Get the list of descriptor IDs that can be used to instantiate the Template.", "The ids this template was built from."),
+    # descriptors.py flat_member_ids (very last round)
+    ('SM1', 'change', 'C14', D, "        if isinstance(member, SequenceDescriptor):\n            ret.extend(flat_member_ids(member))", "        if isinstance(member, SequenceDescriptor):\n            ret.append(member.id)\n            ret.extend(flat_member_ids(member))"),
+    ('SM2', 'change', 'C14', D, "            ret.append(member.id)\n            ret.append(member.factor.id)\n            ret.extend(flat_member_ids(member))", "            ret.append(member.factor.id)\n            ret.append(member.id)\n            ret.extend(flat_member_ids(member))"),
+    ('SM3', 'change', 'C14', D, "        elif isinstance(member, FixedReplicationDescriptor):\n            ret.append(member.id)\n            ret.extend(flat_member_ids(member))", "        elif isinstance(member, FixedReplicationDescriptor):\n            ret.append(member.id)"),
+    ('SM4', 'preserve', 'C14', D, "    Return a flat list of expanded numeric IDs for the given descriptor.", "    The flat list of expanded numeric ids of the given descriptor."),
     # ---- stage D: the whole NodePathParser of dataquery.py (stateful class, C15_src_parse_eq) ----------------
     ('D1', 'change', 'C15', Q, "                if self.current_state == STATE_START_PARSING:\n                    self.current_state = STATE_START_SUBSET\n",
      "                if True:\n                    self.current_state = STATE_START_SUBSET\n"),
